@@ -81,6 +81,10 @@ func init() {
 	reg("github.com/zeromicro/go-zero/core/timex.Now", func(fr *frame, a []value) value {
 		return fr.i.run.now
 	})
+	reg("github.com/zeromicro/go-zero/core/timex.Since", func(fr *frame, a []value) value {
+		r := fr.i.run
+		return binop(r, tokenSUB, nil, r.now, a[0])
+	})
 	reg("time.Sleep", func(fr *frame, a []value) value {
 		r := fr.i.run
 		s := r.sched
